@@ -16,7 +16,7 @@ def meta(i):
 def save(i, m): json.dump(m, open(os.path.join(d(i), "meta.json"), "w"), indent=1)
 mode = sys.argv[1]
 if mode == "collect":
-    for b in sorted(glob.glob("/tmp/benign/B?")):
+    for b in sorted([d for d in glob.glob("/tmp/benign/B*") if os.path.isdir(d)]):
         for p in sorted(glob.glob(b + "/seed/patch*.diff")):
             n = os.path.basename(p)[5:-5]
             i = f"{os.path.basename(b)}-{n}"
